@@ -1,6 +1,7 @@
 ------------------------- MODULE Trace_ContractTx -------------------------
 (* Trace validation for C15.  Each Tx line of the trace is one contract transaction executed by  *)
-(* the real node (alone in its block, or the first of two in one block: "mid"), with the receipt *)
+(* the real node (alone in its block, or one of several in one block: "mid" = not the last one;  *)
+(* Plain lines are the other transactions of such a block), with the receipt                      *)
 (* the node stored, the effects the probes recorded during the real run, and the ledger          *)
 (* projection read back from the committed state after the block.  The ledger is carried by the  *)
 (* specification: `led` is the last observed (or, for a mid line, the specified) ledger, so every*)
@@ -16,10 +17,13 @@ EXTENDS ContractTx, Json, IOUtils
 Trace == ndJsonDeserialize(IOEnv.TRACE_FILE)
 ASSUME TLCSet(2, 0) /\ TLCSet(3, <<>>)
 
-VARIABLES l, bad, drift
-tvars == <<vars, l, bad, drift>>
+VARIABLES l, bad, drift,
+          inb,     \* inside a block: earlier transactions of the block (mid lines) have been consumed
+          bpre,    \* the ledger at the start of the current block
+          bacc     \* what the earlier transactions of the block paid and burnt
+tvars == <<vars, l, bad, drift, inb, bpre, bacc>>
 prop == Proposer
-Unused == UNCHANGED <<frames, gas, steps, shok, acts>>
+Unused == UNCHANGED <<frames, gas, steps, shok, acts, blk>>
 
 Pairs(s) == {<<s[j][1], s[j][2]>> : j \in DOMAIN s}
 LedgerOf(s) == [n \in {s[i].a : i \in DOMAIN s} |->
@@ -40,21 +44,31 @@ NoTx == [kind |-> "none"]
 NoRc == [success |-> FALSE, gasUsed |-> 0, gasCost |-> Zero, oog |-> FALSE]
 NoEff == [req |-> <<>>, burnt |-> Zero, term |-> Zero, deployed |-> {}, sh |-> NoShadow]
 TraceInit == /\ l = 1 /\ led = <<>> /\ pre0 = <<>> /\ pc = "idle" /\ tx = NoTx /\ rc = NoRc /\ eff = NoEff
-             /\ frames = <<>> /\ gas = 0 /\ steps = 0 /\ shok = TRUE /\ acts = {}
-             /\ bad = {} /\ drift = 0
+             /\ frames = <<>> /\ gas = 0 /\ steps = 0 /\ shok = TRUE /\ acts = {} /\ blk = [cache |-> <<>>, ntx |-> 1, out |-> FALSE]
+             /\ bad = {} /\ drift = 0 /\ inb = FALSE /\ bpre = <<>> /\ bacc = Zero
 
 TReset == /\ l <= Len(Trace) /\ Trace[l].ev = "Reset" /\ l' = l + 1
           /\ Trace[l].p = Proposer
           /\ led' = LedgerOf(Trace[l].st) /\ pre0' = led' /\ pc' = "idle" /\ tx' = NoTx /\ rc' = NoRc /\ eff' = NoEff
-          /\ Unused /\ UNCHANGED <<bad, drift>>
+          /\ Unused /\ UNCHANGED <<bad, drift>> /\ inb' = FALSE /\ bpre' = led' /\ bacc' = Zero
 
 (* a block without contract transaction (funding transfer, empty blocks): the observation is installed *)
 TOther == /\ l <= Len(Trace) /\ Trace[l].ev = "Other" /\ l' = l + 1
           /\ led' = LedgerOf(Trace[l].st) /\ pre0' = led' /\ pc' = "idle" /\ tx' = NoTx /\ rc' = NoRc /\ eff' = NoEff
-          /\ Unused /\ UNCHANGED <<bad, drift>>
+          /\ Unused /\ UNCHANGED <<bad, drift>> /\ inb' = FALSE /\ bpre' = led' /\ bacc' = Zero
 
 Note(b) == /\ bad' = IF b = "" THEN bad ELSE bad \cup {b}
            /\ IF b # "" /\ b \notin bad THEN TLCSet(3, Append(TLCGet(3), <<l, b>>)) ELSE TRUE
+
+(* an earlier transaction of a block: the block accumulators *)
+InBlock(spent) == /\ inb' = TRUE /\ bpre' = (IF inb THEN bpre ELSE led)
+                  /\ bacc' = Plus(IF inb THEN bacc ELSE Zero, spent)
+
+(* a transaction of a block that is not a contract transaction (never the last one of a block) *)
+TPlain == /\ l <= Len(Trace) /\ Trace[l].ev = "Plain" /\ l' = l + 1
+          /\ LET p == Trace[l] IN /\ led' = PlainOp(led, p) /\ InBlock(Plus(p.fee, p.tips))
+          /\ pre0' = led /\ pc' = "idle" /\ tx' = NoTx /\ rc' = NoRc /\ eff' = NoEff
+          /\ Unused /\ UNCHANGED <<bad, drift>>
 
 TTx == /\ l <= Len(Trace) /\ Trace[l].ev = "Tx" /\ l' = l + 1
        /\ LET e == Trace[l]
@@ -62,24 +76,23 @@ TTx == /\ l <= Len(Trace) /\ Trace[l].ev = "Tx" /\ l' = l + 1
               r == e.rc
               ef == EffOf(e.eff)
           IN IF e.mid
-             THEN \* first transaction of a two-transaction block: no observation in between; the
-                  \* specified outcome (fully determined: failure, or embedded contract) is carried on
-                  LET b == IF ~(\A a \in DOMAIN ef.req : IsNat(ef.req[a])) THEN "NoOverspend"
-                           ELSE IF ~ReceiptTruthful(t, r, ef) THEN "ReceiptTruthful"
-                           ELSE IF ~OutcomeAgrees(t, r, ef) THEN "OutcomeAgrees"
-                           ELSE IF ~GasWithinBought(t, r) THEN "GasWithinBought"
-                           ELSE IF ~StoreDetermined(t, r, ef) THEN "MidNotDetermined" ELSE ""
-                  IN /\ led' = ChargeOp(Settled(led, t, r, ef), t, Add(t.sizeFee, r.gasCost))
-                     /\ Note(b) /\ drift' = drift
+             THEN \* not the last transaction of its block: no observation in between; the specified
+                  \* outcome is carried on, the clauses that need no observation are evaluated
+                  /\ led' = MidOp(led, t, r, ef)
+                  /\ Note(MidBroken(led, t, r, ef, prop)) /\ drift' = drift
+                  /\ InBlock(Spent(t, r, ef, MidCharge(t, r)))
              ELSE LET post == LedgerOf(e.st)
-                      b == Broken(led, post, t, r, ef, prop)
+                      b0 == Broken(led, post, t, r, ef, prop)
+                      b == IF b0 = "" /\ inb /\ ~BlockConserved(bpre, post, Plus(bacc, Spent(t, r, ef, Charged(led, post, t, r, ef))), prop)
+                           THEN "BlockConserved" ELSE b0
                       d == IF b = "" /\ Drift(led, post, t, r, ef) THEN 1 ELSE 0
                   IN /\ led' = post /\ Note(b)
                      /\ drift' = drift + d /\ TLCSet(2, drift')
+                     /\ inb' = FALSE /\ bpre' = post /\ bacc' = Zero
        /\ pre0' = led /\ pc' = "done" /\ tx' = Trace[l].tx /\ rc' = Trace[l].rc /\ eff' = EffOf(Trace[l].eff)
        /\ Unused
 
-TraceNext == TReset \/ TOther \/ TTx
+TraceNext == TReset \/ TOther \/ TPlain \/ TTx
 TraceSpec == TraceInit /\ [][TraceNext]_tvars
 
 TraceAccepted ==
